@@ -7,6 +7,7 @@ package main
 type classBounds struct {
 	MaxWrites    int   `json:"max_writes"`
 	MaxGapOps    []int `json:"max_gap_ops_by_writes"` // index = number of writes of the history (0 unused)
+	Slots        []string `json:"slots"`             // slot choices of a write
 	FarWrites    int   `json:"far_slot_up_to_writes"` // the slot "far" (beyond the memdb write window) only in histories up to this length
 	ReopenWrites int   `json:"reopen_up_to_writes"`   // a reopen (~0.5 s) only in histories up to this length
 }
@@ -15,19 +16,18 @@ type bounds struct {
 	// histories that write only series a (time / place structure) may be longer than histories with two series
 	// (filtering / grouping structure)
 	One, Two classBounds
-	slots    []string // slot choices of a write
 }
 
 func boundsOf(tier string) bounds {
-	slots := []string{"same", "next", "prev", "fam2", "far"}
+	all := []string{"same", "next", "prev", "fam2", "far"}
 	if tier == "thorough" {
-		return bounds{slots: slots,
-			One: classBounds{MaxWrites: 5, MaxGapOps: []int{0, 3, 3, 3, 3, 2}, FarWrites: 4, ReopenWrites: 3},
-			Two: classBounds{MaxWrites: 4, MaxGapOps: []int{0, 3, 3, 3, 1}, FarWrites: 2, ReopenWrites: 3}}
+		return bounds{
+			One: classBounds{Slots: all, MaxWrites: 5, MaxGapOps: []int{0, 3, 3, 3, 3, 2}, FarWrites: 4, ReopenWrites: 3},
+			Two: classBounds{Slots: all, MaxWrites: 4, MaxGapOps: []int{0, 3, 3, 3, 1}, FarWrites: 2, ReopenWrites: 3}}
 	}
-	return bounds{slots: slots,
-		One: classBounds{MaxWrites: 4, MaxGapOps: []int{0, 2, 2, 2, 2}, FarWrites: 3, ReopenWrites: 2},
-		Two: classBounds{MaxWrites: 3, MaxGapOps: []int{0, 2, 2, 2}, FarWrites: 0, ReopenWrites: 2}}
+	return bounds{
+		One: classBounds{Slots: all, MaxWrites: 4, MaxGapOps: []int{0, 2, 2, 2, 1}, FarWrites: 3, ReopenWrites: 2},
+		Two: classBounds{Slots: []string{"same", "next", "fam2"}, MaxWrites: 3, MaxGapOps: []int{0, 2, 2, 2}, FarWrites: 0, ReopenWrites: 2}}
 }
 
 // gap operations that may follow a write
@@ -48,6 +48,7 @@ func forEachCase(b bounds, emit func(Case) bool) {
 		writes  int
 		usesB   bool
 		usesFar bool
+		slots   []string
 		gapOps  int
 		reopens int
 	}
@@ -80,6 +81,15 @@ func forEachCase(b bounds, emit func(Case) bool) {
 		if f.usesFar && f.writes > cb.FarWrites {
 			return false
 		}
+		for _, sl := range f.slots {
+			ok := false
+			for _, x := range cb.Slots {
+				ok = ok || x == sl
+			}
+			if !ok {
+				return false
+			}
+		}
 		if f.reopens > 0 && f.writes > cb.ReopenWrites {
 			return false
 		}
@@ -91,11 +101,11 @@ func forEachCase(b bounds, emit func(Case) bool) {
 			if f.writes == 0 && series == "b" {
 				continue
 			}
-			for _, slot := range b.slots {
+			for _, slot := range b.One.Slots {
 				for _, gap := range gapOps {
 					n := frame{steps: append(append([]Step{}, f.steps...), Step{Op: "w", Series: series, Slot: slot}),
 						writes: f.writes + 1, usesB: f.usesB || series == "b", usesFar: f.usesFar || slot == "far",
-						gapOps: f.gapOps, reopens: f.reopens}
+						gapOps: f.gapOps, reopens: f.reopens, slots: append(append([]string{}, f.slots...), slot)}
 					switch gap {
 					case "F":
 						n.steps = append(n.steps, Step{Op: "F"})
